@@ -7,10 +7,24 @@
 From TFL Require Import Model.PWLProject Proofs.PWLProject.
 Open Scope Q_scope.
 
-(* pwl_valid c n: n >= 1 heights, one positive length per height, p_mono and
-   p_conv in {-1,0,1}, p_min <= p_max when both bounds are present, clamps
-   only together with monotonicity. *)
-(* Satisfiable: Proofs/PWLProject.v, Example pwl_valid_example. *)
+(* Vocabulary (defined in Proofs/PWLProject.v):
+   pwl_valid c n :=  what verify_hyperparameters / canonicalize_* /
+     convert_all_constraints / _approximately_project_bounds_only guarantee:
+     (1 <= n) /\ length (p_lengths c) = n /\ Forall (fun l => 0 < l) (p_lengths c) /\
+     (p_mono c = -1 \/ p_mono c = 0 \/ p_mono c = 1) /\ (p_conv c = -1 \/ p_conv c = 0 \/ p_conv c = 1) /\
+     (p_cmin c <> BNone -> p_cmax c <> BNone -> p_min c <= p_max c) /\
+     (p_cmin c = BClamped \/ p_cmax c = BClamped -> p_mono c <> 0).
+   feasible c bias h :=  the column bias :: h meets every configured constraint:
+     (p_mono c = 1 -> Forall (fun x => 0 <= x) h) /\ (p_mono c = -1 -> Forall (fun x => x <= 0) h) /\
+     (p_cmin c <> BNone -> Forall (fun s => p_min c <= s) (keypoint_outputs (bias :: h))) /\
+     (p_cmax c <> BNone -> Forall (fun s => s <= p_max c) (keypoint_outputs (bias :: h))) /\
+     (p_conv c <> 0 -> chain (p_conv c) h (p_lengths c))     [consecutive slopes ordered, division-free] /\
+     (p_cmin c = BClamped -> (p_mono c = 1 -> bias == p_min c) /\ (p_mono c = -1 -> bias + qsum h == p_min c)) /\
+     (p_cmax c = BClamped -> (p_mono c = 1 -> bias + qsum h == p_max c) /\ (p_mono c = -1 -> bias == p_max c)).
+   qleq := Forall2 Qeq (pointwise equality of rationals).
+   Hypotheses are satisfiable: Examples pwl_valid_example, feasible_example,
+   ex_hyp_clamp_inc, ex_hyp_clamp_dec, ex_hyp_convex_mono, ex_hyp_convex_unbounded,
+   ex_hyp_bounds_convex in Proofs/PWLProject.v. *)
 
 (* Monotonicity is exact: every height has the configured sign. *)
 Theorem C04_monotone_exact : forall c n bias hs, pwl_valid c n -> length hs = n ->
